@@ -413,6 +413,10 @@ func ReadWeatherCSV(VWDAT string, startyear int, g *GlobalVarsMain, s *WeatherDa
 			T = d.datetime.YearDay()
 			yrz = 1
 		} else if d.datetime.Day() == 1 && d.datetime.Month() == time.January {
+			// the year that ends here must be complete (a gap at the end of a year shows only now)
+			if s.MaxYearDays[yrz-1] != time.Date(s.JAR[yrz-1], time.December, 31, 0, 0, 0, 0, time.UTC).YearDay() {
+				return fmt.Errorf("%s Failed to parse file: %s, error: missing days", g.LOGID, VWDAT)
+			}
 			T = 1
 			yrz = yrz + 1
 		}
@@ -551,6 +555,10 @@ func ReadWeatherCZ(VWDAT string, startyear int, g *GlobalVarsMain, s *WeatherDat
 			T = d.datetime.YearDay()
 			yrz = 1
 		} else if d.datetime.Day() == 1 && d.datetime.Month() == time.January {
+			// the year that ends here must be complete (a gap at the end of a year shows only now)
+			if s.MaxYearDays[yrz-1] != time.Date(s.JAR[yrz-1], time.December, 31, 0, 0, 0, 0, time.UTC).YearDay() {
+				return fmt.Errorf("%s Failed to parse file: %s, error: missing days", g.LOGID, VWDAT)
+			}
 			T = 1
 			yrz = yrz + 1
 		}
